@@ -146,7 +146,7 @@ fn random_conf(r: &mut Rng, i: usize) -> MessageConfig {
                 name: None, unit: None, fixed_point: None, value: Value::Bool(1) }).collect());
             c.extended_header_info = Some(ExtendedHeaderConfig { message_type: MessageType::Log(LogLevel::Info), app_id: "A".into(), context_id: "C".into() });
         } else {
-            c.payload = PayloadContent::NetworkTrace((0..n).map(|k| vec![k as u8]).collect());
+            c.payload = PayloadContent::NetworkTrace((0..n).map(|k| if k % 3 == 1 { vec![] } else { vec![k as u8; 1 + k % 4] }).collect());   // incl. empty slices
             c.extended_header_info = Some(ExtendedHeaderConfig { message_type: MessageType::NetworkTrace(NetworkTraceType::Can), app_id: "A".into(), context_id: "C".into() });
         }
         return c;
